@@ -191,7 +191,15 @@ def legacy_layout(rng, repo, kind=None):
             e0 = rng.choice(fbs)
             alias = {"mediaType": e0["mediaType"], "digest": e0["digest"], "size": e0["size"], "annotations": {REFNAME: "refs-backup"}}
             L.entries.insert(rng.randrange(len(L.entries) + 1), alias)
-    tags = {e["annotations"][REFNAME]: e["digest"] for e in L.entries if e.get("annotations", {}).get(REFNAME) and not re.match(r"^sha(256|512)-", e["annotations"][REFNAME])}
+    if rng.random() < 0.4:
+        # ordinary tags that begin like a fallback tag without being one (a suffix, a hex part that is too short), on an index
+        # that lists images: not part of the fallback scheme, they stay
+        hexpart = dimg.split(":")[1]
+        body = index_manifest([{"mediaType": MT_OCI_M, "digest": dimg, "size": len(img)}], annotations={"plain": "index"})
+        d_ = L.add_blob(body)
+        for t_ in rng.sample(["sha256-" + hexpart + ".meta", "sha256-" + hexpart[:63], "sha256-" + hexpart + "0", "sha512-" + hexpart + "-x"], rng.randrange(1, 3)):
+            L.entries.insert(rng.randrange(len(L.entries) + 1), {"mediaType": MT_OCI_I, "digest": d_, "size": len(body), "annotations": {REFNAME: t_}})
+    tags = {e["annotations"][REFNAME]: e["digest"] for e in L.entries if e.get("annotations", {}).get(REFNAME) and not re.match(r"^sha(256|512)-[0-9a-f]{64}$", e["annotations"][REFNAME])}
     return L, expect, tags
 
 
